@@ -590,12 +590,14 @@ Section Oracles.
 
   Lemma handle_growth target s r :
     (forall e, In e (qcache (fst (handle target s r))) ->
-       In e (qcache s) \/ (wellformed r = true /\ ekey e = r_blk r /\ eval e = r_filt r)) /\
+       In e (qcache s) \/ (wellformed r = true /\ ekey e = r_blk r /\ eval e = r_filt r /\
+                           verified (r_blk r) (r_filt r) = true)) /\
     (forall p, In p (qdbq (fst (handle target s r))) ->
        In p (qdbq s) \/ (wellformed r = true /\ p = (r_blk r, r_filt r))).
   Proof.
     destruct (handle_cases target s r) as [[_ E]|[Ha E]]; rewrite E; cbn [fst]; [split; auto|].
-    pose proof (accepted_wellformed s r Ha) as Hw. unfold accept_state. cbn [qcache qdbq]. split.
+    pose proof (accepted_wellformed s r Ha) as Hw. pose proof (accepted_verified s r Ha) as Hv.
+    unfold accept_state. cbn [qcache qdbq]. split.
     - intros e He. apply lru_put_In in He as [->|He]; [right|left; exact He]. auto.
     - intros p Hp. destruct persist; [|left; exact Hp].
       apply in_app_iff in Hp as [Hp|[<-|[]]]; [left; exact Hp|right; auto].
@@ -603,15 +605,16 @@ Section Oracles.
 
   Lemma feed_growth target rs : forall s,
     (forall e, In e (qcache (fst (feed target s rs))) ->
-       In e (qcache s) \/ exists r, In r rs /\ wellformed r = true /\ ekey e = r_blk r /\ eval e = r_filt r) /\
+       In e (qcache s) \/ exists r, In r rs /\ wellformed r = true /\ ekey e = r_blk r /\ eval e = r_filt r /\
+                                    verified (r_blk r) (r_filt r) = true) /\
     (forall p, In p (qdbq (fst (feed target s rs))) ->
        In p (qdbq s) \/ exists r, In r rs /\ wellformed r = true /\ p = (r_blk r, r_filt r)).
   Proof.
     induction rs as [|r rs IH]; intros s; [split; auto|].
     rewrite feed_cons. cbn [fst]. destruct (IH (fst (handle target s r))) as [IHc IHd].
     destruct (handle_growth target s r) as [Hc Hd]. split.
-    - intros e He. apply IHc in He as [He|(r' & Hin & Hw & Hk & Hv)].
-      + apply Hc in He as [He|(Hw & Hk & Hv)]; [left; exact He|right].
+    - intros e He. apply IHc in He as [He|(r' & Hin & Hw & Hk & Hv & Hver)].
+      + apply Hc in He as [He|(Hw & Hk & Hv & Hver)]; [left; exact He|right].
         exists r. split; [left; reflexivity|auto].
       + right. exists r'. split; [right; exact Hin|auto].
     - intros p' Hp. apply IHd in Hp as [Hp|(r' & Hin & Hw & Hp)].
@@ -620,10 +623,13 @@ Section Oracles.
       + right. exists r'. split; [right; exact Hin|auto].
   Qed.
 
+  (* what a call adds to the cache was served by a well-formed response of
+     this call AND satisfies the relation (no assumption on the state) *)
   Lemma get_cfilter_growth st c :
     (forall e, In e (cache (fst (get_cfilter st c))) ->
        In e (cache st) \/
-       (o_queried (snd (get_cfilter st c)) = true /\ In (ekey e, eval e) (served c))) /\
+       (o_queried (snd (get_cfilter st c)) = true /\ In (ekey e, eval e) (served c) /\
+        verified (ekey e) (eval e) = true)) /\
     (forall p, In p (dbq (fst (get_cfilter st c))) -> In p (dbq st) \/ In p (served c)) /\
     db (fst (get_cfilter st c)) = db st.
   Proof.
@@ -633,8 +639,8 @@ Section Oracles.
     - pose proof (feed_growth (c_blk c) (c_resps c)
                     {| pending := pend; tfilter := None; qcache := cache st; qdbq := dbq st |}) as [Gc Gd].
       rewrite Hfeed in Gc, Gd. cbn [fst qcache qdbq] in Gc, Gd. repeat split.
-      + intros e He. apply Gc in He as [He|(r & Hin & Hw & Hk & Hv)]; [left; exact He|right].
-        split; [reflexivity|]. rewrite Hk, Hv. apply served_In; assumption.
+      + intros e He. apply Gc in He as [He|(r & Hin & Hw & Hk & Hv & Hver)]; [left; exact He|right].
+        split; [reflexivity|]. rewrite Hk, Hv. split; [apply served_In; assumption|exact Hver].
       + intros p' Hp. apply Gd in Hp as [Hp|(r & Hin & Hw & ->)]; [left; exact Hp|right].
         apply served_In; assumption.
   Qed.
@@ -648,36 +654,33 @@ Section Oracles.
     destruct ((0 <=? _) && _); [|discriminate]. intros [= <- <- _]. auto.
   Qed.
 
-  Definition minv (st : gstate) (sv : list (Z * Z)) : Prop :=
-    state_ok st /\ forall p, In p (dbq st) -> In p sv.
-
   Lemma cache_view_In (cch : list entry) e : In e cch -> In (ekey e, eval e) (cache_view cch).
   Proof. intros H. unfold cache_view. apply in_map_iff. exists e. auto. Qed.
 
-  Lemma call_ok_model st sv c :
-    0 <= best < two32 -> 0 <= c_blk c < two32 -> minv st sv ->
-    step_ok (cache_view (cache st)) (db st) sv (Call c) (snd (get_cfilter st c)) = true.
+  (* strict = true needs the state invariant; the core monitor does not *)
+  Lemma call_ok_model strict st sv c :
+    0 <= best < two32 -> 0 <= c_blk c < two32 ->
+    (strict = true -> state_ok st) ->
+    step_ok strict (cache_view (cache st)) (db st) sv (Call c) (snd (get_cfilter st c)) = true.
   Proof.
-    intros Hb Hh [Hok Hsv]. unfold Spec.step_ok.
-    pose proof (get_cfilter_inv st c Hok) as Hok'.
+    intros Hb Hh Hok. unfold Spec.step_ok.
     destruct (step_obs st (Call c)) as [Eoc _]. cbn [Model.step] in Eoc.
     rewrite !andb_true_iff. repeat split.
     - (* returned filter *)
       destruct (o_res (snd (get_cfilter st c))) as [f| | | | |] eqn:Hres; try reflexivity.
-      + rewrite (get_cfilter_verified st c f Hok Hres). cbn [andb].
-        destruct (o_queried (snd (get_cfilter st c))) eqn:Hq.
-        * destruct (get_cfilter_from_network st c f Hres Hq) as (Hv & _ & r & Hin & Hw & Hbk & Hf' & _).
-          rewrite Hv. cbn [andb]. apply pmem_In. rewrite <- Hbk, <- Hf'. apply served_In; assumption.
-        * revert Hres Hq. gc c st; try discriminate; intros [= <-] _.
-          -- apply lru_get_some in Hget as (e & Hin & Hk & Hv & _).
-             apply orb_true_iff. left. apply pmem_In. rewrite <- Hk, <- Hv. apply cache_view_In, Hin.
-          -- apply orb_true_iff. right. apply pmem_In, db_get_In, Hdb.
+      + destruct (o_queried (snd (get_cfilter st c))) eqn:Hq.
+        * destruct (get_cfilter_from_network st c f Hres Hq) as (Hv & _ & r & Hin & Hw & Hbk & Hf' & Hver).
+          cbn [orb]. rewrite Hver, Hv. cbn [andb]. apply pmem_In. rewrite <- Hbk, <- Hf'. apply served_In; assumption.
+        * cbn [orb]. apply andb_true_iff. split.
+          -- destruct strict; [|reflexivity]. apply (get_cfilter_verified st c f (Hok eq_refl) Hres).
+          -- revert Hres Hq. gc c st; try discriminate; intros [= <-] _.
+             ++ apply lru_get_some in Hget as (e & Hin & Hk & Hv & _).
+                apply orb_true_iff. left. apply pmem_In. rewrite <- Hk, <- Hv. apply cache_view_In, Hin.
+             ++ apply orb_true_iff. right. apply pmem_In, db_get_In, Hdb.
       + exfalso. revert Hres. gc c st; try discriminate. destruct (c_verdict c); try discriminate.
         destruct (tfilter q); discriminate.
-    - (* unknown hash / filter type *)
-      gc c st; try reflexivity; destruct (c_known c); try reflexivity; discriminate.
-    - (* local hit *)
-      destruct (c_ftype_ok c) eqn:Hft; [|reflexivity]. cbn [andb].
+    - gc c st; try reflexivity; destruct (c_known c); try reflexivity; discriminate.
+    - destruct (c_ftype_ok c) eqn:Hft; [|reflexivity]. cbn [andb].
       destruct (existsb (fun p0 : Z * Z => fst p0 =? c_blk c) (cache_view (cache st))
                 || existsb (fun p0 : Z * Z => fst p0 =? c_blk c) (db st)) eqn:Hhit; [|reflexivity].
       destruct (get_cfilter_local st c Hft) as (Hq & He & _).
@@ -687,12 +690,10 @@ Section Oracles.
         - right. unfold db_get. destruct (find _ (db st)) as [p0|] eqn:F; [eauto|].
           exfalso. pose proof (find_none _ _ F _ Hin) as Hn. cbn in Hn. rewrite Z.eqb_refl in Hn. discriminate. }
       rewrite Hq, He. reflexivity.
-    - (* out of range *)
-      destruct (o_queried (snd (get_cfilter st c))) eqn:Hq; [|reflexivity]. cbn [andb].
+    - destruct (o_queried (snd (get_cfilter st c))) eqn:Hq; [|reflexivity]. cbn [andb].
       destruct ((1 <=? c_blk c) && (c_blk c <=? best)) eqn:Hin; [reflexivity|]. cbn [negb].
       apply (get_cfilter_out_of_range st c Hh Hb); [lia|exact Hq].
-    - (* range *)
-      destruct (o_queried (snd (get_cfilter st c))) eqn:Hq; [|reflexivity].
+    - destruct (o_queried (snd (get_cfilter st c))) eqn:Hq; [|reflexivity].
       destruct (get_cfilter_range st c Hq) as (pend & Hp).
       destruct (o_range (snd (get_cfilter st c))) as [start stop]. cbn [fst snd] in Hp.
       destruct (prepare_range _ _ _ _ _ _ _ Hh Hb Hp) as (R1 & R2 & R3 & R4 & _ & _ & R7 & _).
@@ -702,66 +703,71 @@ Section Oracles.
         assert (1 <= c_blk c <= best) as Hr by lia. specialize (R7 Hr). lia.
       + destruct (c_batch c =? 0) eqn:E0; [|reflexivity]. apply Z.eqb_eq in E0. rewrite E0 in Hp.
         destruct (prepare_nobatch _ _ _ _ _ Hp) as [-> ->]. rewrite !Z.eqb_refl. reflexivity.
-    - (* cache verified *)
-      rewrite Eoc. apply all_verified_of. intros b f Hin. unfold cache_view in Hin.
-      apply in_map_iff in Hin as (e & [= <- <-] & He). destruct Hok' as (Hc' & _). apply Hc', He.
-    - (* cache growth *)
+    - (* cache *)
       rewrite Eoc. apply forallb_forall. intros x Hx. unfold cache_view in Hx.
-      apply in_map_iff in Hx as (e & <- & He).
-      destruct (get_cfilter_growth st c) as (Gc & _ & _). apply Gc in He as [He|[Hq Hs]].
-      + apply orb_true_iff. left. apply pmem_In, cache_view_In, He.
-      + apply orb_true_iff. right. rewrite Hq. cbn [andb]. apply pmem_In, Hs.
+      apply in_map_iff in Hx as (e & <- & He). cbn [fst snd].
+      destruct (get_cfilter_growth st c) as (Gc & _ & _).
+      pose proof He as He'. apply Gc in He as [He|(Hq & Hs & Hver)].
+      + pose proof (proj2 (pmem_In _ _) (cache_view_In _ _ He)) as Hm. rewrite Hm.
+        rewrite andb_true_iff. split; [|reflexivity].
+        destruct strict; cbn [negb andb]; [|apply orb_true_r].
+        destruct (get_cfilter_inv st c (Hok eq_refl)) as (Hc' & _). rewrite (Hc' e He'). reflexivity.
+      + rewrite Hver, Hq. cbn [orb andb]. apply orb_true_iff. right. apply pmem_In, Hs.
   Qed.
 
-  Lemma step_ok_model st sv o :
-    0 <= best < two32 -> (forall c, o = Call c -> 0 <= c_blk c < two32) -> minv st sv ->
-    step_ok (cache_view (cache st)) (db st) sv o (snd (step st o)) = true /\
-    minv (fst (step st o)) (next_sv sv o) /\
+  Lemma step_ok_model strict st sv o :
+    0 <= best < two32 -> (forall c, o = Call c -> 0 <= c_blk c < two32) ->
+    (strict = true -> state_ok st) -> (forall p, In p (dbq st) -> In p sv) ->
+    step_ok strict (cache_view (cache st)) (db st) sv o (snd (step st o)) = true /\
+    (forall p, In p (dbq (fst (step st o))) -> In p (next_sv sv o)) /\
     next_pd (db st) o (snd (step st o)) = db (fst (step st o)).
   Proof.
-    intros Hb Hh Hm. pose proof Hm as [Hok Hsv].
-    pose proof (step_inv st o Hok) as Hok'.
+    intros Hb Hh Hok Hsv.
+    assert (Hok' : strict = true -> state_ok (fst (step st o))) by (intros E; apply step_inv, Hok, E).
     destruct o as [c|n| |].
     - cbn [Model.step next_sv next_pd]. split; [apply call_ok_model; auto|]. split.
-      + split; [exact Hok'|]. destruct (get_cfilter_growth st c) as (_ & Gd & _).
+      + destruct (get_cfilter_growth st c) as (_ & Gd & _).
         intros p0 Hp. apply in_app_iff. apply Gd in Hp as [Hp|Hp]; [right; apply Hsv, Hp|left; exact Hp].
       + destruct (get_cfilter_growth st c) as (_ & _ & Gdb). symmetry. exact Gdb.
     - cbn [Model.step fst snd next_sv next_pd mk_obs o_db o_cache cache db dbq Spec.step_ok] in *.
-      split; [|split; [split; [exact Hok'|]|reflexivity]].
-      + destruct Hok' as (Hc' & Hd' & _). cbn [cache db] in Hc', Hd'.
-        rewrite !andb_true_iff. repeat split.
-        * apply all_verified_of, Hd'.
-        * apply forallb_forall. intros x Hx. apply db_put_all_In in Hx as [Hx|Hx]; apply orb_true_iff.
-          -- left. apply pmem_In, Hx.
-          -- right. apply pmem_In, Hsv. eapply firstn_In', Hx.
-        * apply all_verified_of. intros b f Hin. unfold cache_view in Hin.
-          apply in_map_iff in Hin as (e & [= <- <-] & He). apply Hc', He.
-        * apply forallb_forall. intros x Hx. apply pmem_In, Hx.
+      split; [|split; [|reflexivity]].
+      + rewrite !andb_true_iff. split.
+        * apply forallb_forall. intros x Hx. apply andb_true_iff. split.
+          -- destruct strict; cbn [negb]; [|apply orb_true_r].
+             destruct (Hok' eq_refl) as (_ & Hd' & _). cbn [db] in Hd'. destruct x as [b f].
+             cbn [fst snd]. rewrite (Hd' b f Hx). reflexivity.
+          -- apply db_put_all_In in Hx as [Hx|Hx]; apply orb_true_iff.
+             ++ left. apply pmem_In, Hx.
+             ++ right. apply pmem_In, Hsv. eapply firstn_In', Hx.
+        * apply forallb_forall. intros x Hx. apply andb_true_iff. split; [|apply pmem_In, Hx].
+          destruct strict; cbn [negb]; [|apply orb_true_r].
+          destruct (Hok' eq_refl) as (Hc' & _). cbn [cache] in Hc'. unfold cache_view in Hx.
+          apply in_map_iff in Hx as (e & <- & He). cbn [fst snd]. rewrite (Hc' e He). reflexivity.
       + intros p0 Hp. apply Hsv. eapply skipn_In', Hp.
     - cbn [Model.step fst snd next_sv next_pd mk_obs o_db o_cache cache db dbq Spec.step_ok cache_view map] in *.
-      split; [reflexivity|]. split; [split; [exact Hok'|exact Hsv]|reflexivity].
+      split; [reflexivity|]. split; [exact Hsv|reflexivity].
     - cbn [Model.step fst snd next_sv next_pd mk_obs o_db o_cache cache db dbq Spec.step_ok] in *.
-      split; [|split; [split; [exact Hok'|exact Hsv]|reflexivity]].
-      destruct Hok' as (Hc' & _). cbn [cache] in Hc'. cbn [forallb andb].
-      rewrite !andb_true_iff. repeat split.
-      * apply all_verified_of. intros b f Hin. unfold cache_view in Hin.
-        apply in_map_iff in Hin as (e & [= <- <-] & He). apply Hc', He.
-      * apply forallb_forall. intros x Hx. apply pmem_In, Hx.
+      split; [|split; [exact Hsv|reflexivity]].
+      cbn [forallb andb].
+      apply forallb_forall. intros x Hx. apply andb_true_iff. split; [|apply pmem_In, Hx].
+      destruct strict; cbn [negb]; [|apply orb_true_r].
+      destruct (Hok' eq_refl) as (Hc' & _). cbn [cache] in Hc'. unfold cache_view in Hx.
+      apply in_map_iff in Hx as (e & <- & He). cbn [fst snd]. rewrite (Hc' e He). reflexivity.
   Qed.
 
   Definition calls_wf (ops : list op) : Prop :=
     forall c, In (Call c) ops -> 0 <= c_blk c < two32.
 
   Lemma first_bad_model ops : forall st sv i,
-    0 <= best < two32 -> calls_wf ops -> minv st sv ->
+    0 <= best < two32 -> calls_wf ops -> state_ok st -> (forall p, In p (dbq st) -> In p sv) ->
     first_bad Hf fh best i (cache_view (cache st)) (db st) sv (combine ops (run st ops)) = None.
   Proof.
-    induction ops as [|o ops IH]; intros st sv i Hb Hwf Hm; [reflexivity|].
+    induction ops as [|o ops IH]; intros st sv i Hb Hwf Hok Hm; [reflexivity|].
     rewrite run_cons. cbn [combine Spec.first_bad].
-    destruct (step_ok_model st sv o Hb) as (Hs & Hm' & Hpd); [|exact Hm|].
+    destruct (step_ok_model true st sv o Hb) as (Hs & Hm' & Hpd); [|intros _; exact Hok|exact Hm|].
     { intros c ->. apply Hwf. left. reflexivity. }
     rewrite Hs, Hpd. destruct (step_obs st o) as [-> _].
-    apply IH; [exact Hb| |exact Hm']. intros c Hc. apply Hwf. right. exact Hc.
+    apply IH; [exact Hb| |apply step_inv, Hok|exact Hm']. intros c Hc. apply Hwf. right. exact Hc.
   Qed.
 
   Lemma model_holds d0 ops :
@@ -769,12 +775,183 @@ Section Oracles.
     holds Hf fh best d0 (combine ops (run {| cache := []; db := d0; dbq := [] |} ops)) = true.
   Proof.
     intros Hb Hwf Hd. unfold Spec.holds. rewrite Hd. cbn [andb].
-    assert (Hm : minv {| cache := []; db := d0; dbq := [] |} []).
-    2:{ pose proof (first_bad_model ops _ [] 0 Hb Hwf Hm) as H.
-        cbn [cache_view cache db map] in H. rewrite H. reflexivity. }
-    split; [|intros p0 []]. repeat split; cbn [cache db dbq].
+    pose proof (first_bad_model ops {| cache := []; db := d0; dbq := [] |} [] 0 Hb Hwf) as H.
+    cbn [cache_view cache db dbq map] in H. rewrite H; [reflexivity| |intros p0 []].
+    repeat split; cbn [cache db dbq].
     - intros e [].
     - intros b f Hin. unfold Spec.all_verified in Hd. rewrite forallb_forall in Hd. apply (Hd (b, f) Hin).
     - intros b f [].
   Qed.
 End Oracles.
+
+(* ------------------------------------------------------------------ *)
+(* histories with rewrites of the committed filter headers *)
+Section Rewrites.
+  Variable Hf : Z -> Z -> Z.
+  Variable fsize : Z -> Z.
+  Variable cap : Z.
+  Variable persist : bool.
+
+  Notation xstep := (xstep Hf fsize cap persist).
+  Notation xrun := (xrun Hf fsize cap persist).
+  Notation xfinal := (xfinal Hf fsize cap persist).
+
+  (* ghost flag clear => cache, database and queue satisfy the relation for
+     the headers committed NOW *)
+  Definition xinv (st : xstate) : Prop :=
+    stale st = false -> state_ok Hf (hdrs st) (base st).
+
+  Lemma entries_ok_state_ok fh g : entries_ok Hf fh g = true -> state_ok Hf fh g.
+  Proof.
+    unfold entries_ok, entries. rewrite !forallb_app, !andb_true_iff, !forallb_forall.
+    intros (Hc & Hd & Hq). repeat split.
+    - intros e He. exact (Hc _ (cache_view_In _ _ He)).
+    - intros b f H. exact (Hd _ H).
+    - intros b f H. exact (Hq _ H).
+  Qed.
+
+  Lemma xstep_base st o :
+    xstep st (XBase o) =
+    ({| base := fst (step Hf (hdrs st) fsize (xbest st) cap persist (base st) o);
+        hdrs := hdrs st; xbest := xbest st; stale := stale st |},
+     snd (step Hf (hdrs st) fsize (xbest st) cap persist (base st) o)).
+  Proof. cbn [Model.xstep]. destruct (step _ _ _ _ _ _ _ o). reflexivity. Qed.
+
+  Lemma xstep_stale_mono st o : stale (fst (xstep st o)) = false -> stale st = false.
+  Proof.
+    destruct o as [o|nb nf]; [rewrite xstep_base; cbn; auto|].
+    cbn. intros H. apply orb_false_iff in H. tauto.
+  Qed.
+
+  Lemma xstep_inv st o : xinv st -> xinv (fst (xstep st o)).
+  Proof.
+    intros Hi Hs. pose proof (xstep_stale_mono st o Hs) as Hs0. revert Hs.
+    destruct o as [o|nb nf].
+    - rewrite xstep_base. cbn [fst base hdrs stale]. intros _. apply step_inv, Hi, Hs0.
+    - cbn. intros H. apply orb_false_iff in H as [_ H]. apply negb_false_iff in H.
+      apply entries_ok_state_ok, H.
+  Qed.
+
+  Lemma xrun_cons st o ops : xrun st (o :: ops) = snd (xstep st o) :: xrun (fst (xstep st o)) ops.
+  Proof. cbn [Model.xrun]. destruct (xstep st o). reflexivity. Qed.
+
+  Lemma xfinal_app st ops1 ops2 : xfinal st (ops1 ++ ops2) = xfinal (xfinal st ops1) ops2.
+  Proof. unfold Model.xfinal. apply fold_left_app. Qed.
+
+  Lemma xfinal_inv ops : forall st, xinv st -> xinv (xfinal st ops).
+  Proof.
+    induction ops as [|o ops IH]; intros st H; [exact H|]. cbn. apply IH, xstep_inv, H.
+  Qed.
+
+  (* UNLESS: as long as no rewrite has invalidated a stored entry, the full
+     property holds after any history with rewrites, w.r.t. the headers
+     committed at that point *)
+  Lemma xstep_unless st o :
+    xinv st -> stale (fst (xstep st o)) = false ->
+    let fh' := hdrs (fst (xstep st o)) in
+    let ob := snd (xstep st o) in
+    (forall c f, o = XBase (Call c) -> o_res ob = RFilter f -> verified Hf fh' (c_blk c) f = true) /\
+    (forall b f, In (b, f) (o_cache ob) -> verified Hf fh' b f = true) /\
+    (forall b f, In (b, f) (o_db ob) -> verified Hf fh' b f = true).
+  Proof.
+    intros Hi Hs. pose proof (xstep_inv st o Hi Hs) as Hok'.
+    pose proof (xstep_stale_mono st o Hs) as Hs0. pose proof (Hi Hs0) as Hok.
+    destruct o as [o|nb nf].
+    - rewrite xstep_base in *. cbn [fst snd hdrs base] in *.
+      pose proof (every_history Hf (hdrs st) fsize (xbest st) cap persist [o] (base st) Hok o
+                    (snd (step Hf (hdrs st) fsize (xbest st) cap persist (base st) o))) as H.
+      rewrite run_cons in H. cbn [combine] in H. destruct (H (or_introl eq_refl)) as (H1 & H2 & H3).
+      repeat split; auto. intros c f [= ->]. apply H1. reflexivity.
+    - cbn [Model.xstep fst snd hdrs base mk_obs o_res o_cache o_db] in *.
+      destruct Hok' as (Hc & Hd & _). repeat split.
+      + discriminate.
+      + intros b f H. unfold cache_view in H. apply in_map_iff in H as (e & [= <- <-] & He). apply Hc, He.
+      + intros b f H. apply Hd, H.
+  Qed.
+
+  Lemma every_history_unless ops1 o st0 :
+    xinv st0 ->
+    let st := xfinal st0 ops1 in
+    stale (fst (xstep st o)) = false ->
+    let fh' := hdrs (fst (xstep st o)) in
+    let ob := snd (xstep st o) in
+    (forall c f, o = XBase (Call c) -> o_res ob = RFilter f -> verified Hf fh' (c_blk c) f = true) /\
+    (forall b f, In (b, f) (o_cache ob) -> verified Hf fh' b f = true) /\
+    (forall b f, In (b, f) (o_db ob) -> verified Hf fh' b f = true).
+  Proof. intros Hi st. apply xstep_unless, xfinal_inv, Hi. Qed.
+
+  (* ALWAYS (stale or not): what a call fetches from the network, and what it
+     adds to the cache, satisfies the relation for the headers committed when
+     the call took its snapshot — i.e. at the call, in the sequential history *)
+  Lemma snapshot_verified ops1 c st0 f :
+    let st := xfinal st0 ops1 in
+    let ob := snd (xstep st (XBase (Call c))) in
+    o_res ob = RFilter f -> o_queried ob = true ->
+    verified Hf (hdrs st) (c_blk c) f = true /\
+    forall e, In e (cache (base (fst (xstep st (XBase (Call c)))))) ->
+              In e (cache (base st)) \/ verified Hf (hdrs st) (ekey e) (eval e) = true.
+  Proof.
+    intros st ob. unfold ob. rewrite xstep_base. cbn [fst snd base Model.step].
+    intros Hres Hq. split.
+    - destruct (get_cfilter_from_network _ _ _ _ _ _ _ _ _ Hres Hq) as (_ & _ & r & _ & _ & _ & _ & Hv). exact Hv.
+    - intros e He. destruct (get_cfilter_growth Hf (hdrs st) fsize (xbest st) cap persist (base st) c) as (G & _).
+      apply G in He as [He|(_ & _ & Hv)]; auto.
+  Qed.
+
+  (* the core monitor accepts every model trace with rewrites; the strict
+     monitor accepts it whenever the ghost flag is clear at the end *)
+  Definition xops_wf (ops : list xop) : Prop :=
+    (forall c, In (XBase (Call c)) ops -> 0 <= c_blk c < two32) /\
+    (forall nb nf, In (XRewrite nb nf) ops -> 0 <= nb < two32).
+
+  Lemma xfirst_bad_model strict ops : forall st sv i,
+    0 <= xbest st < two32 -> xops_wf ops ->
+    (strict = true -> stale (xfinal st ops) = false) -> xinv st ->
+    (forall p, In p (dbq (base st)) -> In p sv) ->
+    xfirst_bad Hf strict (hdrs st) (xbest st) i (cache_view (cache (base st))) (db (base st)) sv
+      (combine ops (xrun st ops)) = None.
+  Proof.
+    induction ops as [|o ops IH]; intros st sv i Hb [Hw1 Hw2] Hs Hi Hm; [reflexivity|].
+    rewrite xrun_cons. cbn [combine].
+    assert (Hs1 : strict = true -> stale (fst (xstep st o)) = false).
+    { intros E. specialize (Hs E). cbn in Hs. clear -Hs.
+      revert Hs. generalize (fst (xstep st o)). induction ops as [|o' ops IH']; intros s H; [exact H|].
+      cbn in H. apply IH' in H. eapply xstep_stale_mono, H. }
+    assert (Hwf' : xops_wf ops).
+    { split; [intros c Hc; apply Hw1; right; exact Hc|intros nb nf Hc; apply (Hw2 nb nf); right; exact Hc]. }
+    destruct o as [o|nb nf].
+    - rewrite xstep_base. cbn [fst snd Spec.xfirst_bad].
+      destruct (step_ok_model Hf (hdrs st) fsize (xbest st) cap persist strict (base st) sv o Hb)
+        as (Hok & Hm' & Hpd).
+      { intros c ->. apply Hw1. left. reflexivity. }
+      { intros E. apply Hi. eapply xstep_stale_mono, Hs1, E. }
+      { exact Hm. }
+      rewrite Hok, Hpd.
+      destruct (step_obs Hf (hdrs st) fsize (xbest st) cap persist (base st) o) as [-> _].
+      pose proof (IH {| base := fst (step Hf (hdrs st) fsize (xbest st) cap persist (base st) o);
+                        hdrs := hdrs st; xbest := xbest st; stale := stale st |} (next_sv sv o) (i + 1)) as IH'.
+      cbn [base hdrs xbest] in IH'. apply IH'; auto.
+      + intros E. specialize (Hs E).
+        change (xfinal st (XBase o :: ops)) with (xfinal (fst (xstep st (XBase o))) ops) in Hs.
+        rewrite xstep_base in Hs. exact Hs.
+      + pose proof (xstep_inv st (XBase o) Hi) as X. rewrite xstep_base in X. exact X.
+    - cbn [Model.xstep fst snd Spec.xfirst_bad mk_obs o_cache o_db].
+      assert (Hr : rewrite_ok Hf strict nf (cache_view (cache (base st))) (db (base st))
+                     (mk_obs (base st) RNone false (0, 0) []) = true).
+      { unfold rewrite_ok. cbn [mk_obs o_cache o_db]. apply andb_true_iff.
+        pose proof (xstep_inv st (XRewrite nb nf) Hi) as X. cbn [Model.xstep fst] in X.
+        split; apply forallb_forall; intros x Hx; apply andb_true_iff; (split; [|apply pmem_In, Hx]);
+          (destruct strict; cbn [negb]; [|apply orb_true_r]);
+          specialize (Hs1 eq_refl); cbn [Model.xstep fst] in Hs1; destruct (X Hs1) as (Hc & Hd & _);
+          cbn [base hdrs] in Hc, Hd.
+        - unfold cache_view in Hx. apply in_map_iff in Hx as (e & <- & He). cbn [fst snd].
+          rewrite (Hc e He). reflexivity.
+        - destruct x as [b f]. cbn [fst snd]. rewrite (Hd b f Hx). reflexivity. }
+      cbn [mk_obs o_cache o_db] in Hr. rewrite Hr.
+      pose proof (IH {| base := base st; hdrs := nf; xbest := nb;
+                        stale := stale st || negb (entries_ok Hf nf (base st)) |} sv (i + 1)) as IH'.
+      cbn [base hdrs xbest] in IH'. apply IH'; auto.
+      + apply (Hw2 nb nf). left. reflexivity.
+      + exact (xstep_inv st (XRewrite nb nf) Hi).
+  Qed.
+End Rewrites.
